@@ -473,10 +473,10 @@ pub const SUBS: &[Sub] = &[
 pub fn run(ctx: &Ctx) {
     run_regress(ctx, SUBS);
     drive_enum(ctx, &SUBS[0], sweep::cases().len() as u64);
-    drive_enum(ctx, &SUBS[1], ctx.n(60, 3000));
-    drive_random(ctx, &SUBS[2], ctx.n(40_000, 2_000_000), 1200);
+    drive_enum(ctx, &SUBS[1], ctx.n(60, 30_000));
+    drive_random(ctx, &SUBS[2], ctx.n(40_000, 20_000_000), 1200);
     if !ctx.quick() && !ctx.failed() {
-        crate::fuzzing::drive_fuzz(ctx, "bytes", 2_000_000);
+        crate::fuzzing::drive_fuzz(ctx, "bytes", 500_000);
     }
 }
 
